@@ -972,4 +972,10 @@ impl Session {
     pub fn verif_tracker_job_held(&self) -> bool {
         self.tracker.job.is_some()
     }
+
+    /// Handle of the tracker task (the harness swaps a retrying task for one that has returned before it injects
+    /// that task's reply).
+    pub fn verif_tracker_job(&mut self) -> &mut Option<JoinHandle<()>> {
+        &mut self.tracker.job
+    }
 }
